@@ -299,9 +299,12 @@ PROPS["C03"] = {
             "without immediates, call-only bodies, tiny loops, huge frames, float constants, jump tables, spills) plus the 120 corpus functions, mocked with "
             "their origin placeholder and a forwarding callback; the written placeholder bytes are validated statically first (never executed if "
             "unfaithful), then the mocked function is called from goroutines of generated stack depth 0..700 and must yield the un-mocked function's "
-            "result and side effects with the callback running exactly once; refused applies leave both byte ranges unchanged and the function unmocked.",
+            "result and side effects with the callback running exactly once; refused applies leave both byte ranges unchanged and the function unmocked. "
+            "Half of the cases on functions whose signature occurs more than once use the placeholder of another function of that signature, and 0..3 "
+            "functions of the signature are first mocked through the same placeholder, called and reset (a placeholder serves whichever function it was last given to).",
     "assumptions": ["reference decoder is the toolchain's x86asm copy", "placeholders lie within +-2GiB of the function (they are functions of the same text segment)"],
     "floors": [("static", "accepted", 5000), ("static", "refused", 20), ("dynamic", "origin-call", 500), ("dynamic", "origin-call/at-generated-depth", 50),
+               ("dynamic", "placeholder-of-another-function", 40), ("dynamic", "placeholder-used-by-other-functions-before", 60),
                ("tight-placeholders", "refused-too-small", 1000), ("tight-placeholders", "accepted", 1000)],
 }
 
@@ -313,7 +316,7 @@ PROPS["C01"] = {
     ],
     "rule": "rapid draws histories of 4..30 operations (apply a compiled closure, apply a reflect.MakeFunc callback, stub with Return, call, GC, churn, reset, drop the builder without reset + GC + heap reuse) "
             "over a window of 4 functions of a generated corpus of 120 functions (signature grammar: 0..20 parameters / 0..5 results over 33 types incl. "
-            "register overflow of integer and float registers, stack-passed arrays/structs, variadics); calls use 5 forms (direct, func value, defer, go, "
+            "register overflow of integer and float registers, stack-passed arrays/structs, variadics; every 8th function is a function literal bound to a package variable); calls use 5 forms (direct, func value, defer, go, "
             "reflect.Call), boundary-biased argument values, optionally from a goroutine that first recursed 20..620 frames. Oracle: the recorder - the "
             "replacement saw the caller's arguments bit-exactly (pointers by identity, floats by bit pattern), the caller received the replacement's / "
             "the stub's results, the original body did not run, the replacement ran exactly once. Plus os.Getenv mocked and observed through "
@@ -503,7 +506,7 @@ PROPS["C14"] = {
     ],
     "rule": "synthetic: rapid lays out a target 'function' (1..200 bytes of straight-line code ending in RET, 0..40 INT3 of padding, a neighbour function "
             "after it) at a generated page offset - including entries 1..13 bytes before a page end - in a never-reused R-X mapping and drives goom's "
-            "PtrTrampoline/Guard.Apply/Unpatch and raw memory.WriteTo with generated offsets/lengths across page boundaries; real: every function of "
+            "PtrTrampoline/Guard.Apply/Unpatch and raw memory.WriteTo with generated offsets/lengths across page boundaries (1..9000 bytes, and whole pages +-3 bytes at any offset); real: every function of "
             "ballast packages (go/types, net/http, math/big, text/template, ...) of the test binary is patched and unpatched with the whole text diffed "
             "at each step. Oracle: accepted => exactly the 13 entry bytes differ and hold the jump, neighbours/padding/other pages untouched, too-short "
             "functions refused, unpatch restores byte-for-byte, /proc/self/maps shows r-xp. A third unit offers origin placeholders of need-4..need+3 bytes directly followed by a neighbour function: the trampoline write must stay "
@@ -511,7 +514,7 @@ PROPS["C14"] = {
             "the synthetic arena keeps PROT_EXEC and the last protection of each page is R+X. Non-trivial: entry within 13 bytes of a page end, extent "
             "within +-3 of 13, or a write crossing a page; every patched real function; distinct by layout / function name / page.",
     "assumptions": ["a tiny body glued to its neighbour without padding is not generated (no Go binary contains one)", "ballast functions are never executed by the harness or goom"],
-    "floors": [("synthetic", "accepted/entry-within-13-bytes-of-page-end", 200), ("synthetic", "refused/too-short", 100), ("synthetic", "write-crossing-a-page-boundary", 300),
+    "floors": [("synthetic", "accepted/entry-within-13-bytes-of-page-end", 200), ("synthetic", "refused/too-short", 100), ("synthetic", "write-crossing-a-page-boundary", 300), ("synthetic", "write-of-whole-pages-at-an-unaligned-address", 40),
                ("real-binary", "patched-and-restored", 1000), ("strace-synthetic", "mprotect-on-synthetic-arena", 1000), ("strace-real", "mprotect-on-text", 1000),
                ("tight-placeholders", "accepted", 1000), ("tight-placeholders", "refused-too-small", 1000)],
 }
@@ -525,7 +528,7 @@ PROPS["C11"] = {
     ],
     "rule": "race build. rapid draws a round: 2..8 mocker goroutines, each with its own builders, looping apply -> call -> re-stub -> call -> reset -> call "
             "over two corpus functions of its own (all targets contiguous in the text, sharing pages with each other and with code being executed; "
-            "some mockers address their targets by name), and 2..8 caller goroutines hammering a steady set mocked before the round (Return stubs and "
+            "some mockers address their targets by name; every third iteration a mocker also mocks a zoo function of its own and re-stubs it with an origin placeholder goom refuses), and 2..8 caller goroutines hammering a steady set mocked before the round (Return stubs and "
             "callbacks forwarding to the origin placeholder of frameless leaves), with generated iteration counts and yield points, all released by a "
             "spin barrier. Oracle: no data-race report with a goom frame, no crash, every steady call yields the mocked result, every mocker sees "
             "exactly its own mock after its apply and the original after its reset, at quiescence the text image is pristine (outside placeholder "
